@@ -127,6 +127,8 @@ class World:
                     kw["message_template"] = TPL["kwn"]
                 if a["delay"]:
                     kw["delay_condition"] = True
+                if a.get("par") == "str":
+                    kw["parent"] = "sec1"
                 if c == "T":
                     if out == "MR":   # only reachable with a keyword template: name a field that is not there
                         kw["message_template"] = "KW {missing:name}!"
